@@ -77,6 +77,62 @@ def ptOf (e : Option PtExpr) (ctx : Option Int) (required : Bool) : Except Err (
   | some (.rel d), some c => .ok (some (c + d))
   | some (.rel _), none => .error .error     -- `None + interval` raises
 
+/-- The format-specific branch of `__init__`: (start, stop, step) before context clipping. -/
+def branch (p : Parsed) (ctxStart : Int) (ctxStop : Option Int) (pStart0 : Int) (pStop0 : Option Int) :
+    Except Err (Int × Option Int × Option Int) :=
+  if p.fmt == 3 then
+    match p.intv, p.reps with
+    | none, _ => pure (pStart0, some pStart0, (none : Option Int))
+    | some k, some n =>
+        if n ≤ 1 then pure (pStart0, some pStart0, none)
+        else pure (pStart0, some (pStart0 + (k : Int) * ((n : Int) - 1)), some (k : Int))
+    | some k, none =>
+        match ctxStop with
+        | some cs => pure (pStart0, some (cs - (cs - pStart0) % (k : Int)), some (k : Int))
+        | none => pure (pStart0, pStop0, some (k : Int))
+  else if p.fmt == 1 then
+    match p.reps, pStop0 with
+    | some n, some e =>
+        if n == 1 then pure (pStart0, some pStart0, none)
+        else
+          let span := e - pStart0
+          let d : Int := (n : Int) - 1
+          if span % d ≠ 0 then throw Err.error
+          else
+            let st := span / d
+            if st < 0 then throw Err.error        -- "negative intervals not supported"
+            else if st = 0 then pure (pStart0, some e, none)   -- falsy interval: behaves as a one-off
+            else pure (pStart0, some e, some st)
+    | _, _ => throw Err.error
+  else
+    -- format 4
+    match pStop0 with
+    | none => throw Err.error
+    | some e =>
+      match p.reps with
+      | some n =>
+          if n ≤ 1 then pure (e, some e, none)
+          else
+            match p.intv with
+            | some k => pure (e - (k : Int) * ((n : Int) - 1), some e, some (k : Int))
+            | none => throw Err.error
+      | none =>
+          match p.intv with
+          | some k => pure (ctxStart + (e - ctxStart) % (k : Int), some e, some (k : Int))
+          | none => throw Err.error
+
+/-- Clip the start to the context start and the stop to the context stop (stepped sequences only). -/
+def clip (s1 : Int) (e1 : Option Int) (k1 : Option Int) (ctxStart : Int) (ctxStop : Option Int) : Core :=
+  match k1 with
+  | none => ⟨s1, e1, none⟩
+  | some k =>
+    let s2 : Int := if s1 < ctxStart then ctxStart + (s1 - ctxStart) % k else s1
+    let e2 : Option Int :=
+      match e1, ctxStop with
+      | some e, some cs => if e > cs then some (cs - (cs - s2) % k) else some e
+      | _, _ => e1
+    ⟨s2, e2, some k⟩
+
 /-- The body of `IntegerSequence.__init__` up to (not including) the exclusions. -/
 def buildCore (p : Parsed) (ctxStart : Int) (ctxStop : Option Int) : Except Err Core := do
   if p.intv = some 0 then throw .unsupported
@@ -87,61 +143,8 @@ def buildCore (p : Parsed) (ctxStart : Int) (ctxStop : Option Int) : Except Err 
   let pStop0 ← ptOf p.stop ctxStop endReq
   -- the start context always exists, so `pStartO` is never `none`
   let pStart0 := pStartO.getD ctxStart
-  let stepI : Option Int := p.intv.map Int.ofNat
-  -- (start, stop, step) after the format-specific branch
-  let (s1, e1, k1) ← (
-    if p.fmt == 3 then
-      match p.intv, p.reps with
-      | none, _ => pure (pStart0, some pStart0, (none : Option Int))
-      | some k, some n =>
-          if n ≤ 1 then pure (pStart0, some pStart0, none)
-          else pure (pStart0, some (pStart0 + (k : Int) * ((n : Int) - 1)), some (k : Int))
-      | some k, none =>
-          match ctxStop with
-          | some cs => pure (pStart0, some (cs - (cs - pStart0) % (k : Int)), some (k : Int))
-          | none => pure (pStart0, pStop0, some (k : Int))
-    else if p.fmt == 1 then
-      match p.reps, pStop0 with
-      | some n, some e =>
-          if n == 1 then pure (pStart0, some pStart0, none)
-          else
-            let span := e - pStart0
-            let d : Int := (n : Int) - 1
-            if span % d ≠ 0 then throw Err.error
-            else
-              let st := span / d
-              if st < 0 then throw Err.error        -- "negative intervals not supported"
-              else if st = 0 then pure (pStart0, some e, none)   -- falsy interval: behaves as a one-off
-              else pure (pStart0, some e, some st)
-      | _, _ => throw Err.error
-    else
-      -- format 4
-      match pStop0 with
-      | none => throw Err.error
-      | some e =>
-        match p.reps with
-        | some n =>
-            if n ≤ 1 then pure (e, some e, none)
-            else
-              match p.intv with
-              | some k => pure (e - (k : Int) * ((n : Int) - 1), some e, some (k : Int))
-              | none => throw Err.error
-        | none =>
-            match p.intv with
-            | some k => pure (ctxStart + (e - ctxStart) % (k : Int), some e, some (k : Int))
-            | none => throw Err.error)
-  let _ := stepI
-  -- clip the start to the context start
-  let s2 : Int :=
-    match k1 with
-    | some k => if s1 < ctxStart then ctxStart + (s1 - ctxStart) % k else s1
-    | none => s1
-  -- clip the stop to the context stop
-  let e2 : Option Int :=
-    match k1, e1, ctxStop with
-    | some k, some e, some cs => if e > cs then some (cs - (cs - s2) % k) else some e
-    | _, _, _ => e1
-  pure ⟨s2, e2, k1⟩
+  let (s1, e1, k1) ← branch p ctxStart ctxStop pStart0 pStop0
+  pure (clip s1 e1 k1 ctxStart ctxStop)
 
 /-- A sequence with its exclusions (exclusion sequences carry no exclusions of their own). -/
 structure Seq where
